@@ -27,6 +27,24 @@ pub fn child(args: &[String]) {
     unsafe {
         libc::signal(libc::SIGPIPE, libc::SIG_DFL);
     }
+    if arg(args, "--mode").as_deref() == Some("mid") {
+        // connect to the parent, say hello, then send one message pausing right before counted system call k
+        use crate::interpose as ip;
+        use std::sync::atomic::Ordering;
+        ip::SPOOF_SNDBUF.store(arg_u64(args, "--sys", 4608) as usize, Ordering::SeqCst);
+        let tx = OsIpcSender::connect(arg(args, "--name").unwrap()).unwrap();
+        tx.send(b"boot", vec![], vec![]).unwrap();
+        let len = arg_u64(args, "--len", 10) as usize;
+        let data = vec![0x5au8; len];
+        ip::CALLNO.store(0, Ordering::SeqCst);
+        ip::PAUSE_AT.store(arg_u64(args, "--pause-at", 0) as i64, Ordering::SeqCst);
+        ip::COUNT_CALLS.store(true, Ordering::SeqCst);
+        let r = tx.send(&data, vec![], vec![]);
+        ip::COUNT_CALLS.store(false, Ordering::SeqCst);
+        let n = ip::CALLNO.load(Ordering::SeqCst);
+        println!("done calls={} result={}", n, if r.is_ok() { "ok" } else { "err" });
+        std::process::exit(if r.is_err() { 0 } else { 7 });
+    }
     let len = arg_u64(args, "--len", 10) as usize;
     let (tx, rx) = platform::channel().unwrap();
     drop(rx);
@@ -34,11 +52,151 @@ pub fn child(args: &[String]) {
     std::process::exit(if r.is_err() { 0 } else { 7 });
 }
 
+/// raw, non-blocking drain of everything queued on the channel socket and on any dedicated socket received through it,
+/// then close every descriptor obtained: what a receiver process that is killed while it keeps up with the sender leaves behind
+fn drain_and_vanish(cfd: i32) {
+    unsafe {
+        loop {
+            let mut hdr = [0u8; 8];
+            let mut buf = vec![0u8; 1 << 16];
+            let mut iov = [
+                libc::iovec { iov_base: hdr.as_mut_ptr() as *mut _, iov_len: 8 },
+                libc::iovec { iov_base: buf.as_mut_ptr() as *mut _, iov_len: buf.len() },
+            ];
+            let mut ctl = vec![0u64; 64];
+            let mut mh: libc::msghdr = std::mem::zeroed();
+            mh.msg_iov = iov.as_mut_ptr();
+            mh.msg_iovlen = 2;
+            mh.msg_control = ctl.as_mut_ptr() as *mut _;
+            mh.msg_controllen = 512;
+            let r = libc::recvmsg(cfd, &mut mh, libc::MSG_DONTWAIT | libc::MSG_CMSG_CLOEXEC);
+            if r <= 0 {
+                break;
+            }
+            let mut c = libc::CMSG_FIRSTHDR(&mh);
+            while !c.is_null() {
+                if (*c).cmsg_level == libc::SOL_SOCKET && (*c).cmsg_type == libc::SCM_RIGHTS {
+                    let n = ((*c).cmsg_len as usize - libc::CMSG_LEN(0) as usize) / 4;
+                    let p = libc::CMSG_DATA(c) as *const i32;
+                    for i in 0..n {
+                        let fd = *p.add(i);
+                        // drain the dedicated socket completely before closing it
+                        loop {
+                            let r = libc::recv(fd, buf.as_mut_ptr() as *mut _, buf.len(), libc::MSG_DONTWAIT);
+                            if r <= 0 {
+                                break;
+                            }
+                        }
+                        libc::close(fd);
+                    }
+                }
+                c = libc::CMSG_NXTHDR(&mh, c);
+            }
+        }
+    }
+}
+
+/// receiver vanishes (having read everything sent so far) right before counted call k of a send issued by a child
+/// process whose SIGPIPE disposition is the default one
+fn mid_send_cases(thorough: bool, n: &mut usize) {
+    use crate::interpose::{self as ip, Ctx, Ev};
+    use std::io::{BufRead, BufReader, Write};
+    use std::process::{Command, Stdio};
+    let sys = 4608usize;
+    let shapes: Vec<usize> = if thorough { vec![100, 4569, 4568 + 2 * 4576 + 1, 4568 + 5 * 4576 + 1] } else { vec![4569, 4568 + 2 * 4576 + 1] };
+    for len in shapes {
+        let mut k = 0usize;
+        loop {
+            let mut c = Case::new(format!("vanish-mid-{}", *n));
+            *n += 1;
+            let (server, name) = platform::OsIpcOneShotServer::new().unwrap();
+            let mut ch = Command::new(std::env::current_exe().unwrap())
+                .args(["vanishchild", "--mode", "mid", "--sys", &sys.to_string(), "--name", &name, "--len", &len.to_string(), "--pause-at", &k.to_string()])
+                .stdin(Stdio::piped())
+                .stdout(Stdio::piped())
+                .spawn()
+                .unwrap();
+            let g = ip::install(Ctx::new(0));
+            let (rx, data, _, _) = server.accept().unwrap();
+            let mut cfd = -1;
+            for (_, e) in ip::take_trace() {
+                if let Ev::Accept { r, .. } = e {
+                    cfd = r;
+                }
+            }
+            drop(g);
+            if data != b"boot" {
+                c.fail("bootstrap message damaged".into());
+            }
+            let mut br = BufReader::new(ch.stdout.take().unwrap());
+            let mut line = String::new();
+            let _ = br.read_line(&mut line);
+            let paused = line.trim() == "p";
+            let mut ncalls = 0usize;
+            if paused {
+                drain_and_vanish(cfd);
+                drop(rx);
+                let mut si = ch.stdin.take().unwrap();
+                let _ = si.write_all(b"g");
+                let _ = si.flush();
+                line.clear();
+                let _ = br.read_line(&mut line);
+            } else {
+                // the send finished without reaching call k: read it normally
+                let _ = rx.recv();
+            }
+            if let Some(rest) = line.trim().strip_prefix("done calls=") {
+                ncalls = rest.split(' ').next().and_then(|x| x.parse().ok()).unwrap_or(0);
+            }
+            // wait for the child with a watchdog
+            let t0 = std::time::Instant::now();
+            let status = loop {
+                match ch.try_wait() {
+                    Ok(Some(st)) => break Some(st),
+                    _ if t0.elapsed() > Duration::from_secs(10) => break None,
+                    _ => std::thread::sleep(Duration::from_millis(2)),
+                }
+            };
+            use std::os::unix::process::ExitStatusExt;
+            match status {
+                None => {
+                    let _ = ch.kill();
+                    let _ = ch.wait();
+                    c.fail(format!("send of {} bytes did not return within 10 s after the receiver vanished before call {}", len, k));
+                },
+                Some(st) => {
+                    if let Some(sig) = st.signal() {
+                        c.fail(format!(
+                            "sending process was terminated by signal {} instead of send() returning an error (receiver vanished, having read everything, before counted call {} of a {}-byte send)",
+                            sig, k, len
+                        ));
+                    } else if paused && st.code() == Some(7) && k < 1 {
+                        c.fail(format!("send of {} bytes reported success although the receiver vanished before anything was transmitted", len));
+                    } else if paused && st.code() != Some(0) && st.code() != Some(7) {
+                        c.fail(format!("sender child exited with {:?}", st.code()));
+                    }
+                },
+            }
+            c.pair("noop".into(), "ok".into());
+            c.nontrivial = paused;
+            c.key = format!("mid:{}:{}", len, k);
+            c.tags.push("when=mid_send_drained_receiver_sigpipe_default".into());
+            c.emit();
+            if !paused || k > 40 {
+                let _ = ncalls;
+                break;
+            }
+            k += 1;
+        }
+    }
+}
+
 pub fn run(args: &[String]) {
     let thorough = arg(args, "--tier").as_deref() == Some("thorough");
     let max = OsIpcSender::get_max_fragment_size();
     let lens: Vec<usize> = if thorough { vec![0, 10, max, max + 1, 3 * max, 20 * max, 4 << 20] } else { vec![10, max + 1, 4 << 20] };
     let mut n = 0;
+    mid_send_cases(thorough, &mut n);
     for &len in &lens {
         for natt in [0usize, 2] {
             // (a) receiver dropped before the send
